@@ -764,7 +764,33 @@ fn extra_items(items: &[Item], m: &str, out: &mut Out) {
                 }
                 ("struct", ident_str(&s.ident))
             }
-            Item::Enum(_) | Item::Impl(_) => continue,
+            Item::Enum(e) => {
+                // the generated error enums: name, visibility, variants, and whether matching them exhaustively is
+                // still possible from another crate
+                let non_exh = e.attrs.iter().any(|a| a.path().is_ident("non_exhaustive"));
+                let vars: Vec<String> = e
+                    .variants
+                    .iter()
+                    .map(|v| {
+                        let hidden = v.attrs.iter().any(|a| a.path().is_ident("doc") && quote::ToTokens::to_token_stream(a).to_string().contains("hidden"));
+                        let nonunit = !matches!(v.fields, syn::Fields::Unit);
+                        format!("{}{}{}", ident_str(&v.ident), if nonunit { "(..)" } else { "" }, if hidden { "#hidden" } else { "" })
+                    })
+                    .collect();
+                out.push(
+                    m,
+                    "enum",
+                    format!(
+                        "{}|pub={}|non_exhaustive={}|variants={}",
+                        ident_str(&e.ident),
+                        b(!matches!(e.vis, Visibility::Inherited)),
+                        b(non_exh),
+                        vars.join(",")
+                    ),
+                );
+                continue;
+            }
+            Item::Impl(_) => continue,
             Item::Use(u) => {
                 if is_use_super_glob(u) {
                     continue;
